@@ -1256,6 +1256,18 @@ class WriteTool(BaseTool):
                             }
                         )
 
+            # CAS guard: a base_hash can never match a file that does not exist
+            if base_hash and not file_exists:
+                return self._error_envelope(
+                    target_path,
+                    [
+                        {
+                            "code": "E_HASH",
+                            "message": f"Hash mismatch - file does not exist (expected {base_hash[:8]}...)",
+                        }
+                    ],
+                )
+
             # Check base_hash if provided AND file exists (CAS guard)
             if base_hash and file_exists:
                 current_hash = self._compute_hash(baseline_content_for_diff)
@@ -1655,7 +1667,7 @@ class WriteTool(BaseTool):
                     os.fsync(f.fileno())
 
                 # TOCTOU protection: recheck base_hash before replace
-                if base_hash and file_exists:
+                if base_hash:
                     with open(target_path, encoding="utf-8") as verify_f:
                         verify_content = verify_f.read()
                     verify_hash = self._compute_hash(verify_content)
